@@ -15,7 +15,7 @@ def spec_eval(model_exe, lines, rundir):
 
 
 def run_check(pid, tier, seed, replay=None):
-    t0 = time.time()
+    t0 = time.monotonic()
     prop = load_prop(pid)
     rundir = os.path.join(core.CACHE, "run", "%s-%s-%d-%d" % (pid, tier, seed, os.getpid()))
     shutil.rmtree(rundir, ignore_errors=True)
@@ -45,7 +45,7 @@ def run_check(pid, tier, seed, replay=None):
         print("VIOLATION property=%s replay=%s no-failing-input-found" % (pid, rp))
         core.write_evidence(pid, tier, seed, dict(obligations=pc["obligations"], discharged=pc["discharged"],
             checker_cmd="coqc -Q coq HV coq/Properties_%s.v" % pid, trusted_base=core.TRUSTED_BASE,
-            evaluations=0, distinct_nontrivial=0, rule="driver build failed", samples=[]), time.time() - t0, 1)
+            evaluations=0, distinct_nontrivial=0, rule="driver build failed", samples=[]), time.monotonic() - t0, 1)
         return 1
     rc, plat = core.sh([drv, "--platform"])
     if "size_t=8 time_t=8 int=4" not in plat:
@@ -163,11 +163,11 @@ def run_check(pid, tier, seed, replay=None):
                class_histogram=dict(allcls.most_common(40)), samples=samples[:8],
                correspondence_mismatches=len(mism), repo_hash=core.repo_hash(), notes=notes[:10])
     cov.update(extra_cov)
-    core.write_evidence(pid, tier, seed, cov, time.time() - t0, nviol,
+    core.write_evidence(pid, tier, seed, cov, time.monotonic() - t0, nviol,
                         assumptions=getattr(prop, "ASSUMPTIONS", []))
     shutil.rmtree(rundir, ignore_errors=True)
     if nviol:
         return 1
     print("OK property=%s tier=%s seed=%d cases=%d classes=%d obligations=%d/%d wall=%.1fs" %
-          (pid, tier, seed, len(cases), len(cls), pc["discharged"], pc["obligations"], time.time() - t0))
+          (pid, tier, seed, len(cases), len(cls), pc["discharged"], pc["obligations"], time.monotonic() - t0))
     return 0
